@@ -879,3 +879,91 @@ def vc_array_writer_dyn():
 
 
 T.group("array_writer_dynamic_items", vc_array_writer_dyn, [(ARR, "Array._to_buffer")], ["C03", "C05", "C01"])
+
+
+# ------------------------------------------------------------------------------------------------ Struct.__init__: handle == view
+def vc_struct_handle_equals_view():
+    """Struct.__init__ (classes of <= 3 fields): the handle's cached size and offsets are exactly what a view rebuilt from
+    (buffer, offset) reads back.  _inspect_args is the class's real closure; allocate_on_buffer and Struct._to_buffer are used
+    through their contracts (a region of info.size bytes; size word and offset words as proved in group struct_small)."""
+    import itertools
+
+    obs = []
+    its = []
+    STRUCT = T.STRUCT
+    for n in range(1, 4):
+        for pattern in itertools.product((False, True), repeat=n):
+            lab = "".join("d" if d else "s" for d in pattern)
+            it = T.struct_env()
+            its.append(it)
+            it.class_home.update({"Struct": STRUCT, "NumpyScalar": "xobjects/scalar.py"})
+            i64 = T.int64_scalar()
+            it.extern_names.update({"Int64": i64, "object": T.ObjectBuiltin()})
+            XB.install_int64(it, i64)
+
+            def construct_Info(st, args, kwargs, node):
+                o = SymObj("Info", dict(kwargs))
+                o.closed = True
+                yield st, o
+            it.construct_Info = construct_Info
+            try:
+                cls, F, tcs, pc = T.build_struct_class(it, pattern)
+                it.obligations = []
+                dyn = [k for k in range(n) if pattern[k]]
+                buf = XB.XBuf("buf")
+                off = fresh_int("allocated_offset")
+
+                def ov_alloc(i, st, f, a, k, nd, buf=buf, off=off):
+                    st.assume(z3.And(off >= 0, off + XB.to_z3(a[0]) <= buf.cap, buf.cap < 2 ** 62))
+                    yield st, (i._relocate(st, buf), off)
+
+                def ov_to_buffer(i, st, f, a, k, nd, F=F, dyn=dyn):
+                    # contract of Struct._to_buffer (group struct_small): size word = info.size, offset word of every later dynamic
+                    # field = info._offsets[index]; everything else inside the object is unconstrained here
+                    b = i._relocate(st, a[0])
+                    o = a[1]
+                    info = a[3]
+                    m = z3.Array(fresh_name("written"), z3.IntSort(), z3.IntSort())
+                    b.mem = m
+                    if dyn:
+                        st.assume(XB.W8(m, o) == info.attrs["size"])
+                        for kk in dyn[1:]:
+                            st.assume(XB.W8(m, o + F[kk].attrs["offset"]) == info.attrs["_offsets"].items[kk])
+                        st.assume(XB.W8(m, o + F[dyn[0]].attrs["offset"]) == fresh_int("junk"))
+                    yield st, None
+                it.overrides[("xobjects/typeutils.py", "allocate_on_buffer")] = ov_alloc
+                it.overrides[(STRUCT, "Struct._to_buffer")] = ov_to_buffer
+                selfo = SymObj("instance", {"__class__": cls})
+                selfo.closed = True
+                vals = {f"f{k}": SymObj("Value", {}) for k in range(n)}
+                con = T._contract(STRUCT, "Struct.__init__", [])
+                it.contract = con
+                for st, out in it.exec_function(con, {"self": selfo, "args": (), "_context": None, "_buffer": None, "_offset": None, "kwargs": PDict(dict(vals))}, pre=pc + [T.SLOT_AX]):
+                    if out is not None and out[0] == "raise":
+                        it.oblige(st, "raises", f"never[{lab}]", False, out[2])
+                        continue
+                    h = it._relocate(st, selfo)
+                    b = it._relocate(st, buf)
+                    it.contract = T._contract(STRUCT, "Struct._from_buffer", [])
+                    for st2, v in it.call_function(st.clone(), FuncVal(STRUCT, "Struct._from_buffer", cls), [b, off], {}, None):
+                        ob = lambda c, g: it.oblige(st2, "post", f"{c}[{lab}]", g if not isinstance(g, bool) else z3.BoolVal(g))
+                        hh = it._relocate(st2, h)
+                        ob("same_offset", hh.attrs.get("_offset") is v.attrs.get("_offset"))
+                        ob("size_equal", hh.attrs.get("_size") == v.attrs.get("_size") if dyn else hh.attrs.get("_size") == cls.attrs["_size"])
+                        ho, vo = hh.attrs.get("_offsets"), v.attrs.get("_offsets")
+                        if len(dyn) >= 2:
+                            ok = isinstance(ho, PDict) and isinstance(vo, PDict)
+                            ob("offsets_cached_in_both", ok)
+                            if ok:
+                                for kk in dyn[1:]:
+                                    ob(f"offset{kk}_equal", ho.items[kk] == vo.items[kk])
+                    it.contract = con
+            except Unsupported as e:
+                vc_struct_handle_equals_view.undecided.append((lab, str(e)[:160]))
+            obs += it.obligations
+    vc_struct_handle_equals_view.interps = its
+    return obs
+
+
+T.group("struct_handle_equals_view", vc_struct_handle_equals_view, [(T.STRUCT, "Struct.__init__"), (T.STRUCT, "Struct._from_buffer"),
+                                                                   (T.STRUCT, "MetaStruct.__new__.<locals>._inspect_args")], ["C06"])
